@@ -326,6 +326,41 @@ fn case(rng: &mut Rng, pool: &Pool, rep: &mut Report, case_no: u64) {
             }
         }
     }
+    // ---- the plan that was printed is the plan that is run - also after the dispatcher has been
+    // used: every 64th small plan is dispatched a few times with one system that stays inside
+    // `run` for 25 ms (a dispatcher that re-arranges itself by measured running times would react),
+    // then the executed layout is read again and compared with the text once more ----
+    if problems.is_empty() && case_no % 64 == 5 && plan.n_systems_total() <= 14 && layout.has_parallel_stage() && plan.slots_used().iter().all(|s| s.is_std()) {
+        let top: Vec<u32> = layout.stages.iter().flat_map(|s| s.iter().skip(1)).flatten().cloned().collect();
+        if let Some(&target) = top.get((case_no as usize / 64) % top.len().max(1)) {
+            ctx.arm(Arc::new(OneVerySlow { target, ms: 25 }));
+            ctx.set_mode(Mode::Run);
+            let r = catch_unwind(AssertUnwindSafe(|| {
+                for _ in 0..2 {
+                    ctx.log.reset();
+                    disp.dispatch(&world);
+                }
+            }));
+            ctx.set_mode(Mode::Build);
+            ctx.disarm();
+            let _ = ctx.take_violations();
+            if r.is_ok() {
+                rep.metric("plans_compared_again_after_slow_dispatches", 1);
+                match recover(&mut disp, &ctx, &world) {
+                    Ok(l2) => {
+                        if let Some(Captured { texts: Ok((plain, _, _, _)), plan: lp, ghosts, .. }) = texts.last() {
+                            let mut p2 = Vec::new();
+                            compare("top (after two dispatches with one slow system)", lp, ghosts, &l2, plain, &mut p2);
+                            for (k, m) in p2 {
+                                problems.push((format!("{}:after_dispatch", k), m));
+                            }
+                        }
+                    }
+                    Err(e) => rep.notes.push(format!("case {}: {}", case_no, e)),
+                }
+            }
+        }
+    }
     rep.metric("unnamed_systems", unnamed as i64);
     rep.metric("sanitised_names", sanitised as i64);
     let mut seen = std::collections::BTreeSet::new();
